@@ -1,10 +1,12 @@
 import Hifi.Lemmas.EpochOrd
 import Hifi.Model.Views
+import Hifi.Lemmas.ViewsFloat
 /-
   C17  Julian Date, Modified Julian Date and UNIX views are exact affine re-expressions.
-  Duration-valued accessors: theorems.  Float-valued accessors / constructors: executed with hardware
-  floats in the driver (bit-for-bit against the implementation) and judged by exact rational
-  arithmetic with a 4-ulp tolerance (PARTIAL: measured, not proved).
+  Duration-valued accessors: theorems.  Float-valued accessors / constructors: theorems on the SoftF64
+  model (`Model/ViewsFloat.lean`: the same f64 expressions as the code on `Hifi.F64`, whose arithmetic is
+  tied bit for bit to the hardware by the F64 stream; the driver additionally cross-checks the SoftF64
+  value of every accessor against the hardware-`Float` evaluation, branch tag `softf64=hw`).
 -/
 namespace Hifi.C17
 open Hifi Hifi.Spec Hifi.Views
@@ -91,5 +93,90 @@ theorem gregorian_epoch_offsets :
   decide +kernel
 
 example : Safe (Dur.mk 1 736646399999999999).val := by unfold Safe; decide +kernel
+
+/-! ### float-valued accessors and constructors (SoftF64) -/
+open Hifi.F64 Hifi.DurFloat Hifi.ViewsF
+
+/-- the f64 products `Unit::Day * MJD_J1900`, `Unit::Day * MJD_OFFSET`, `Unit::Day * (MJD_J1900 + MJD_OFFSET)`
+    that the code forms are EXACTLY the constants used above (15020.0, 2400000.5, 2415020.5 days have
+    ≤ 53-bit products with 8.64·10^13) -/
+theorem float_day_constants_exact :
+    dayMjd = mjdJ1900 ∧ dayOffset = mjdOffset ∧ dayJde = jdeJ1900 ∧
+    toRat MJD_J1900F = ((15020 : Int) : Rat) ∧ toRat MJD_OFFSETF = 4800001 / 2 := by
+  obtain ⟨h1, h2, h3, h4, h5, _⟩ := day_consts_exact
+  exact ⟨h1, h2, h3, h4, h5⟩
+
+/-- **the 22 float-valued accessors** (`to_tai_seconds` … `to_gpst_days`; x = the elapsed time in the
+    accessor's scale, every canonical duration with the margins of `duration_views_exact`, i.e. far
+    more than ±10 000 years): the accessor returns a finite double that has exactly the sign of the
+    exact quantity (x + constant, `Spec.accConst`) and lies within 8·2^-53·max(|exact|, 1 s in the unit)
+    of it — "four ulp"; the four accessors that call `to_seconds()` directly within 4·2^-53·max(|exact|, 1) -/
+theorem float_accessors_accuracy (a : Acc) (fs : Int) (hu : unitNs (accConst a).2 = some fs) (d : Dur)
+    (hd : d.Canon) (hs : Safe d.val) (hjd : d.val ≤ DMAX - 70 * NPCs) :
+    ∃ f, accF a d = some f ∧ toUnitOk 8 fs (d.val + (accConst a).1) f = true ∧
+      (accUnit a = none → toSecondsOk 4 (d.val + (accConst a).1) f = true) :=
+  accF_spec a fs hu d hd hs hjd
+
+/-- each float accessor is non-decreasing in the epoch (in its elapsed time in the accessor's scale) -/
+theorem float_accessors_monotone (a : Acc) (d1 d2 : Dur) (h1 : d1.Canon) (h2 : d2.Canon) (hs1 : Safe d1.val)
+    (hs2 : Safe d2.val) (hj1 : d1.val ≤ DMAX - 70 * NPCs) (hj2 : d2.val ≤ DMAX - 70 * NPCs) (h : d1.val ≤ d2.val) :
+    ∃ f1 f2, accF a d1 = some f1 ∧ accF a d2 = some f2 ∧ F64.le f1 f2 = true :=
+  accF_mono a d1 d2 h1 h2 hs1 hs2 hj1 hj2 h
+
+/-- the accessor table is complete and names the Rust functions -/
+theorem float_accessors_named : Acc.all.length = 22 ∧ Acc.all.all (fun a => Acc.ofString? a.name == some a) = true ∧
+    Acc.all.all (fun a => (unitNs (accConst a).2).isSome) = true := by decide
+
+/-- `from_mjd_*(days)` on WHOLE MJD days n, |n − 15020| ≤ 2^22 (±11 483 years): exactly (n − 15020) days
+    minus the scale's reference-date offset g, to the nanosecond -/
+theorem from_mjd_whole_days_exact (g : Dur) (hg : g.Canon)
+    (hgs : -6311520000000000000 ≤ g.val ∧ g.val ≤ 6311520000000000000) (n : Int)
+    (hn : -4194304 ≤ n - 15020 ∧ n - 15020 ≤ 4194304) :
+    (fromMjdDur g (F64.ofInt n)).Canon ∧ (fromMjdDur g (F64.ofInt n)).val = (n - 15020) * DAY - g.val :=
+  fromMjdDur_integer_days g hg hgs n hn
+
+/-- `from_jde_*(days)` on Julian dates at midnight (n + 0.5), |n − 2415020| ≤ 2^22: exact likewise -/
+theorem from_jde_midnight_exact (g : Dur) (hg : g.Canon)
+    (hgs : -6311520000000000000 ≤ g.val ∧ g.val ≤ 6311520000000000000) (days : F64) (hf : days.isFinite = true)
+    (n : Int) (hd : toRat days = (n : Rat) + 1 / 2) (hn : -4194304 ≤ n - 2415020 ∧ n - 2415020 ≤ 4194304) :
+    (fromJdeDur g days).Canon ∧ (fromJdeDur g days).val = (n - 2415020) * DAY - g.val :=
+  fromJdeDur_midnight g hg hgs days hf n hd hn
+
+/-- `from_mjd_*` for EVERY finite canonical double of magnitude ≤ 2^23 days: within the resolution of
+    the double, |r + g − (days − 15020)·day| ≤ 1 ns + 2^-51·|days − 15020|·day -/
+theorem from_mjd_float_resolution (g : Dur) (hg : g.Canon)
+    (hgs : -6311520000000000000 ≤ g.val ∧ g.val ≤ 6311520000000000000) (days : F64) (hf : days.isFinite = true)
+    (hw : days.wf = true) (hb : absR (toRat days) ≤ pow2 23) :
+    (fromMjdDur g days).Canon ∧
+    absR ((((fromMjdDur g days).val + g.val : Int) : Rat) - (toRat days - 15020) * 86400000000000) ≤
+      1 + absR (toRat days - 15020) * 86400000000000 * pow2 (-51) :=
+  fromMjdDur_err g hg hgs days hf hw hb
+
+/-- `from_jde_*` likewise: |r + g − (days − 2415020.5)·day| ≤ 1 ns + 2^-51·(|days| + 2415021)·day
+    (a Julian Date near 2.4·10^6 resolves 2^-31 day ≈ 40 µs; the bound is of that order) -/
+theorem from_jde_float_resolution (g : Dur) (hg : g.Canon)
+    (hgs : -6311520000000000000 ≤ g.val ∧ g.val ≤ 6311520000000000000) (days : F64) (hf : days.isFinite = true)
+    (hw : days.wf = true) (hb : absR (toRat days) ≤ pow2 23) :
+    (fromJdeDur g days).Canon ∧
+    absR ((((fromJdeDur g days).val + g.val : Int) : Rat) - (toRat days - 4830041 / 2) * 86400000000000) ≤
+      1 + (absR (toRat days) + 2415021) * 86400000000000 * pow2 (-51) :=
+  fromJdeDur_err g hg hgs days hf hw hb
+
+/-- `from_unix_seconds` / `from_unix_milliseconds` of a finite double: 1970-01-01 plus the duration the
+    count denotes (C18: clampD (trunc (rnd (x·len)))); whole seconds up to |k| ≤ 4 611 686 018 exactly -/
+theorem from_unix_float (x : F64) (hx : x.isFinite = true) :
+    (∃ t, unitTimesF 1000000000 x = some t ∧ (fromUnixSecondsDur x).Canon ∧
+      (fromUnixSecondsDur x).val = clampD (2208988800000000000 + t)) ∧
+    (∃ t, unitTimesF 1000000 x = some t ∧ (fromUnixMillisecondsDur x).Canon ∧
+      (fromUnixMillisecondsDur x).val = clampD (2208988800000000000 + t)) := fromUnix_spec x hx
+
+theorem from_unix_whole_seconds_exact (k : Int) (hk : -4611686018 ≤ k ∧ k ≤ 4611686018) :
+    (fromUnixSecondsDur (F64.ofInt k)).val = 2208988800000000000 + k * 1000000000 := fromUnixSeconds_integer k hk
+
+-- non-vacuity
+example : accF .jdeTaiDays ⟨1, 0⟩ = some (F64.ofBits 0x4142b42cc0000000) ∧
+    toRat (F64.ofBits 0x4142b42cc0000000) = 4903091 / 2 := by decide +kernel   -- 2000-01-01T00:00 TAI is JD 2451545.5
+example : (F64.ofBits 0x40e92a8000000000).wf = true ∧ toRat (F64.ofBits 0x40e92a8000000000) = ((51540 : Int) : Rat) ∧
+    absR (toRat (F64.ofBits 0x40e92a8000000000)) ≤ pow2 23 := by decide +kernel
 
 end Hifi.C17
